@@ -9,7 +9,11 @@ pub use core::*;
 #[cfg(feature = "compiled_data")]
 use crate::tzdb::FsTzdbProvider;
 #[cfg(feature = "compiled_data")]
+#[cfg(not(temporal_verif))]
 use std::sync::{LazyLock, Mutex};
+#[cfg(all(feature = "compiled_data", temporal_verif))]
+#[allow(unused_imports)]
+use crate::verif_hooks::sync::*;
 
 #[cfg(feature = "compiled_data")]
 pub static TZ_PROVIDER: LazyLock<Mutex<FsTzdbProvider>> =
